@@ -34,12 +34,12 @@ import (
 
 func init() { core.Register("C15", core.Scenario{Run: Run, Replay: Replay}) }
 
-const (
-	epsUs = 1000 // clock granularity allowed on the sharp side (1 ms)
-
-	classAcceptLoop = "proxy-protocol-accept-loop" // F8
-	classMitmSilent = "mitm-silent-tunnel"         // F32
-)
+// No known-finding class is open for this property: F8 (the accept loop waited for the PROXY header of
+// every connection) and F32 (no deadline for the first tunnel byte after an intercepted CONNECT) are
+// repaired in the tree. The inputs that showed them - groups of peers stalled in their PROXY header next to
+// a probe, a client silent after the 200 to CONNECT - are generated on every run and kept in the corpus;
+// what they find is a VIOLATION.
+const epsUs = 1000 // clock granularity allowed on the sharp side (1 ms)
 
 // Limits are the configured limits in milliseconds (0 = not set).
 type Limits struct {
@@ -91,7 +91,7 @@ func (c Conf) limitAt(point string) int {
 		return c.L.ProxyHdr
 	case "tls-hello", "mitm-hello":
 		return c.L.TLS
-	case "idle":
+	case "idle", "mitm-peek": // handleMITM arms the idle deadline anew for the first tunnel byte
 		return c.idleEff()
 	case "head":
 		return c.headerEff()
@@ -133,7 +133,8 @@ func (c Conf) minLimit() int {
 }
 
 // probeBoundUs is the bound on the probe's latency: a function of the configuration only (never of the
-// number of stalled peers), well below the smallest limit a blocked accept loop would add.
+// number of stalled peers), well below the smallest limit an accept loop that waits for a stalled peer
+// would add.
 func (c Conf) probeBoundUs() int64 {
 	b := int64(c.minLimit()) * 600
 	if b < 90_000 {
@@ -151,8 +152,7 @@ type env struct {
 	ca     *rig.CA
 	roots  *x509.CertPool
 	hello  []byte
-	stamps sync.Map   // Case-Id → time.Time at which the origin began writing its response
-	serial sync.Mutex // PROXY stackings: one case at a time (a stalled header blocks the listener, F8)
+	stamps sync.Map // Case-Id → time.Time at which the origin began writing its response
 	slack  time.Duration
 }
 
@@ -556,7 +556,7 @@ func askDeadline(m *core.Model, conf Conf, accept int64, events []string) modelO
 	return out
 }
 
-type slot struct{ Accept, Start int64 } // -1 = never
+type slot struct{ Accept, Start int64 } // instant Accept returned the connection, instant its goroutine started
 
 func (e *env) askAccept(m *core.Model, peers []string) []slot {
 	ans := m.MustAsk("C15", "accept", e.conf.stackWire(), e.conf.limitsWire(), "0", core.JoinList(peers))
